@@ -14,6 +14,7 @@ import TexelVerif.Drv.Draw
 import TexelVerif.Drv.Rev
 import TexelVerif.Drv.Text
 import TexelVerif.Drv.Proto
+import TexelVerif.Drv.PG
 /-! Line-protocol driver: one operation per stdin line, one canonical reply line.
     Imports model files only (no proofs, no Mathlib), so it links as a `lean_exe`. -/
 
@@ -34,6 +35,7 @@ def dispatch (st : DrvState) (line : String) : DrvState × String :=
   | "uci" :: args => (st, Drv.Uci.step args)
   | "mate" :: args => (st, Drv.Mate.step args)
   | "tb13" :: args => (st, Drv.TB13.step args)
+  | "pg" :: args => (st, Drv.PG.step args)
   | "nn" :: args => let (t, o) := Drv.NN.step st.nn args; ({ st with nn := t }, o)
   | "tm" :: args => (st, Drv.Time.step args)
   | "pgbook" :: args => let (b, o) := Drv.Book.step st.pgbook args; ({ st with pgbook := b }, o)
